@@ -22,7 +22,7 @@ IsEvent(e) == l <= Len(Rec) /\ Ev.e = e
 Advance == l' = l + 1
 Same == UNCHANGED <<roots, nrc, nkids, xs, covlT, covlX, queue, inflight, toDeref, locked, snap,
                     nextId, nextCid, ncommits, nlocks, ideal, idealX, conflictT, conflictX, corrupt,
-                    hdrMark, leaked, ncrash>>
+                    hdrMark, leaked, ncrash, wpend>>
 Silently == hist' = Hist([a |-> Ev.e]) /\ Same
 
 RECURSIVE RefsOf(_)
@@ -38,7 +38,7 @@ TCommit ==
             [] t.t = "deref" -> CommitDeref(t.k, st)
             [] t.t = "ref" -> CommitRef(t.k, st)
             [] OTHER -> CommitSetOnly(st)
-       /\ CommitCommon(st)
+       /\ CommitCommon(st) /\ UNCHANGED wpend
     /\ Advance
 
 TProcess == IsEvent("Process") /\ queue # <<>> /\ Head(queue).cid = Ev.cid /\ Process /\ Advance
